@@ -185,6 +185,35 @@ class WrapperModel:
             out |= WrapperModel._train_roots(a.value)
         return out
 
+    def train_roots_in(self, fi: FuncInfo, a: ast.AST) -> Set[str]:
+        """`_train_roots`, looking through locals of `fi` that are bound to a list of trains (`L = [t1, t2]`) or to the
+        reconciled version of one (`L = reconcile_spike_trains(L)`)"""
+        roots = self._train_roots(a)
+        defs: Dict[str, List[ast.AST]] = {}
+        for n in ast.walk(fi.node):
+            if isinstance(n, ast.Assign) and len(n.targets) == 1 and isinstance(n.targets[0], ast.Name):
+                defs.setdefault(n.targets[0].id, []).append(n.value)
+        params = {x.arg for x in fi.node.args.args}
+        for _ in range(4):
+            new = set()
+            for r in roots:
+                if r in params or r not in defs:
+                    new.add(r)
+                    continue
+                for v in defs[r]:
+                    if isinstance(v, (ast.List, ast.Tuple, ast.Name)):
+                        new |= self._train_roots(v)
+                    elif isinstance(v, ast.Call) and isinstance(v.func, ast.Name) and v.func.id in (
+                            'reconcile_spike_trains', 'reconcile_spike_trains_bi', 'list'):
+                        for x in v.args:
+                            new |= self._train_roots(x)
+                    else:
+                        new.add(r)
+            if new == roots:
+                break
+            roots = new
+        return roots
+
     # ------------------------------------------------------------------ reconcile prologue
     def reconcile_prologue(self, fi: FuncInfo) -> Optional[dict]:
         for k, st in enumerate(fi.node.body):
